@@ -229,6 +229,40 @@ def gen_scenario(seed, index):
 # execution
 
 
+def _create(w, model, spec, op):
+    from ovld import Ovld
+
+    k = op["op"]
+    if k == "root":
+        w.new_func(op["name"], named=op.get("named", True))
+        model.add(op["name"], [], False)
+        for m in op["mids"]:
+            w.register(op["name"], m)
+            model.nodes[op["name"]]["own"][sigkey(spec, m)] = [m, None]
+        return
+    if k in ("copy", "variant") and op["src"] not in w.funcs:
+        return
+    if k == "mix" and any(p not in w.funcs for p in op["parents"]):
+        return
+    if k == "copy":
+        ov = w.funcs[op["src"]].copy(linkback=op["linkback"])
+        parents = [op["src"]]
+    elif k == "variant":
+        ov = w.funcs[op["src"]].variant(w.method(op["mid"]),
+                                        priority=spec["methods"][op["mid"]].get("prio", 0),
+                                        linkback=op["linkback"])
+        parents = [op["src"]]
+    else:
+        ov = Ovld(mixins=[w.funcs[p] for p in op["parents"]], linkback=op["linkback"])
+        parents = list(op["parents"])
+    if op.get("named", True):
+        ov.rename(op["name"], op["name"])
+    w.funcs[op["name"]] = ov
+    model.add(op["name"], parents, op["linkback"])
+    if k == "variant":
+        model.nodes[op["name"]]["own"][sigkey(spec, op["mid"])] = [op["mid"], None]
+
+
 def execute(scen):
     from ovld import Ovld
 
@@ -257,6 +291,15 @@ def execute(scen):
     for i, op in enumerate(scen["ops"]):
         k = op["op"]
         res = None
+        if k in ("root", "copy", "variant", "mix"):
+            # creating a function or deriving one from others must always work
+            try:
+                _create(w, model, spec, op)
+            except Exception as e:  # noqa: BLE001
+                violation = {"clause": "creating / deriving a function raised", "op_index": i, "op": op,
+                             "error": classify(e), "symptom": "derive-raised:" + type(e).__name__}
+                break
+            continue
         if k == "root":
             ov = w.new_func(op["name"], named=op.get("named", True))
             model.add(op["name"], [], False)
